@@ -1,3 +1,4 @@
+import os
 """Stage tables: which specification runs and which conformance runs decide
 each property, per tier.  See DESIGN.md section 6."""
 
@@ -102,6 +103,25 @@ def printer_slice(ctx, sl, hook="none", extra_consts=None, module="MCPrinter", c
     return ctx.tlc_replay(module, cfg, ["printer-replay", "-prop", ctx.prop, "-hook", hook, "-slice", sl], consts=consts)
 
 
+def printer_rnd(ctx, n=None, module="MCPrinter", cfg="Printer.cfg", hook="none"):
+    """slice rnd: pseudo-random cases (operand terms up to four levels deep over every constructor of the term language,
+    formats assembled from literals and directives), a pure function of (seed, index); run through the specification
+    by TLC and replayed on the real printer like every other slice"""
+    n = int(os.environ.get("VERIF_RND_N", 0)) or n or tier(ctx, 1600, 24000)
+    return printer_slice(ctx, "rnd", hook=hook, module=module, cfg=cfg,
+                         extra_consts=dict(RndN=n, RndSeed=int(os.environ.get("VERIF_SEED", "1")) % 90))
+
+
+def printer_rnd_hook(ctx):
+    """the random slice with an error hook registered"""
+    return printer_rnd(ctx, n=tier(ctx, 800, 8000), hook="plain")
+
+
+def routes_rnd(ctx):
+    """the random slice through the four routes of C16 (MCRoutes)"""
+    return printer_rnd(ctx, n=tier(ctx, 800, 8000), module="MCRoutes", cfg="Routes.cfg")
+
+
 def printer_control_f3(ctx):
     """vacuity control: on the specification of the code BEFORE the repair of F3 (nested printers dropping the
     override) TLC must find the C06 invariant violated"""
@@ -131,6 +151,7 @@ def c02(ctx):
     registry_model(ctx)    # what is public is decided by the registry at that moment: exactly the registered types
     for sl in tier(ctx, ["qcls", "wrap", "smoke", "dir"], ["cls", "wrap", "panic", "smoke", "dir"]):
         printer_slice(ctx, sl)
+    printer_rnd(ctx)
     ctx.harness(["maporder-drive", "-prop", "C02"])   # maps print in key order: order-isomorphic unsafe keys, same redacted text
     # the whole fmt-compatible universe of C04 (Go values of every kind) plus redact-specific values, built from two secrets
     ctx.harness(["secrets-drive", "-prop", "C02", "-pairs", str(tier(ctx, 4000, 200000))])
@@ -166,12 +187,15 @@ def c05(ctx):
     registry_model(ctx)
     printer_slice(ctx, tier(ctx, "qcls", "cls"))
     printer_slice(ctx, "dir")
+    printer_rnd(ctx)
     mode_traces(ctx)
 
 
 def c06(ctx):
     printer_slice(ctx, "wrap")
     printer_slice(ctx, "wrap", hook="plain")     # "errors handled by a registered error hook": bypassed under Unsafe()
+    printer_rnd(ctx, n=tier(ctx, 800, 8000))
+    printer_rnd_hook(ctx)
     mode_traces(ctx)
     printer_control_f3(ctx)
 
@@ -180,6 +204,7 @@ def c11(ctx):
     deep_nesting(ctx)
     printer_slice(ctx, "panic")
     printer_slice(ctx, "dir")
+    printer_rnd(ctx)
     writer_model(ctx)      # every SafeWriter call sequence incl. JoinTo with non-slice, nil and typed-nil operands: no panic
     buffer_model(ctx, deep=False)
     ctx.harness(["fmtdiff-drive", "-prop", "C11", "-n", str(tier(ctx, 60000, 1500000))])
@@ -192,6 +217,7 @@ def c11(ctx):
 
 def c15(ctx):
     printer_slice(ctx, tier(ctx, "qerrorf", "errorf"))
+    printer_rnd(ctx)
     if ctx.tier == "thorough":
         printer_slice(ctx, "qerrorf", hook="plain")
         printer_slice(ctx, "hook", hook="plain")
@@ -201,6 +227,7 @@ def c17(ctx):
     printer_slice(ctx, "hook", hook="plain")
     printer_slice(ctx, "hook", hook="none")
     printer_slice(ctx, "hook", hook="panic")
+    printer_rnd_hook(ctx)
     if ctx.tier == "thorough":
         printer_slice(ctx, "hook", hook="print")
         printer_slice(ctx, "qerrorf", hook="plain")
@@ -298,6 +325,7 @@ def c12(ctx):
     # history independence on the printer cases: every case of two slices printed three times in different orders
     printer_slice(ctx, "smoke")
     printer_slice(ctx, tier(ctx, "qcls", "cls"))
+    printer_rnd(ctx)
     # model -> code: behaviours replayed as call histories, probes compared with a fresh process
     hists = pool_histories_from_tlc(ctx, tier(ctx, 300, 5000), 40)
     trace = ctx.work + "/poolh.ndjson"
@@ -342,6 +370,7 @@ def c01(ctx):
     writer_model(ctx)
     printer_slice(ctx, tier(ctx, "qbytes", "bytes"))
     printer_slice(ctx, tier(ctx, "qcompose", "compose"), module="MCCompose", cfg="Compose.cfg")
+    printer_rnd(ctx)
     if ctx.tier == "thorough":
         printer_slice(ctx, "smoke")
         printer_slice(ctx, "panic")
@@ -358,6 +387,7 @@ def c03(ctx):
     writer_model(ctx)
     printer_slice(ctx, tier(ctx, "qbytes", "bytes"))
     printer_slice(ctx, tier(ctx, "qcompose", "compose"), module="MCCompose", cfg="Compose.cfg")
+    printer_rnd(ctx)
     if ctx.tier == "thorough":
         printer_slice(ctx, "smoke")
     long_payloads(ctx)
@@ -381,6 +411,7 @@ def c09(ctx):
 
 def c08(ctx):
     printer_slice(ctx, tier(ctx, "qcompose", "compose"), module="MCCompose", cfg="Compose.cfg")
+    printer_rnd(ctx)
 
 
 def deep_nesting(ctx):
@@ -392,6 +423,7 @@ def c16(ctx):
     deep_nesting(ctx)
     for sl in tier(ctx, ["qcls", "wrap", "smoke", "dir", "qbytes"], ["cls", "wrap", "panic", "smoke", "bytes", "dir", "qerrorf"]):
         printer_slice(ctx, sl, module="MCRoutes", cfg="Routes.cfg")
+    routes_rnd(ctx)
 
 
 def buffermem_model(ctx):
